@@ -6,11 +6,15 @@ from lib.facts import CallGraph, find, is_node, path_of, render
 from lib import absint as A
 from lib import fxn as X
 from lib.kernel import Kernel, Unrecognised, show, roots_in, root_of
+from lib import outfresh as OF
+from lib.synflow import Inliner
 
 TECHNIQUE = ("effect classification of every solve body through the kernel normal form (accumulating / appending updates of the output cell), loop nest of every solve() in "
              "Interpreter::step by symbolic evaluation through helpers, iterator adaptors and counted while loops (counted forward passes over the whole plan), who-may-mutate the plan "
              "(append only; the plan is a role: field, accessor, typed parameter or a local initialised from one), field-type rule for the "
-             "language's value containers and call-graph purity (clock, RNG, hash-ordered iteration) from the evaluators and kernels")
+             "language's value containers and call-graph purity (clock, RNG, hash-ordered iteration) from the evaluators and kernels; output freshness of every solve body: flow-sensitive "
+             "classification of each read of the body's own output cell (fresh / invariant / feedback) over the kernel normal form with private helpers inlined, idempotence of a "
+             "self-projection decided by closed evaluation of its match arms")
 EXPLANATION = (
     "Decides structural clauses of C19: (R1) step(0,n) is n forward passes over the whole plan and step(i,n) solves only step i, n times; (R2) every function "
     "struct outside the assignment families recomputes its output idempotently: its solve body writes only its own output and never updates it from its own "
@@ -21,6 +25,11 @@ EXPLANATION = (
     ' (R5) in Interpreter::step every whole-plan solve() sits in the plan traversal nested inside the step-counter loop, in every branch.'
     ' (R6) a sequence collected while iterating a hash-ordered field of a value (MechTable::col_names, MechRecord::field_names ...) is never used position-wise.'
     " (R2, extended) a solve body that hands its output cell `&mut` to a method other than nalgebra's write-only `*_to` family transforms it in place: the previous evaluation's value feeds the next one."
+    " (R7) output freshness, decided on the syntax of every non-assignment solve body (private helpers inlined): every read of the body's own output cell - a value, a condition or a loop "
+    "bound that reaches a write, an update or an early exit - sees either a place the body defined from its inputs earlier on every path to the read, or a place no evaluation ever writes "
+    "(the extent of a never-resized matrix, the column kinds of an output table); a read of a place that the same body writes and has not yet redefined (evaluation k+1 reads what evaluation "
+    "k left) is reported unless it is a guarded resize to a computed extent, the padding of a resize, or a projection `P = match P {..}` proven idempotent by evaluating its arms on their own "
+    "results; what is decided is this data-flow fact about the source, not the equality of the values held after k and k+1 evaluations."
 )
 CRATES = X.FXN_CRATES
 NONDET = re.compile(r"^std::time::|^rand::|^rand_core::|^getrandom::|^std::env::|SystemTime|Instant::now|thread_rng|^std::process::id")
@@ -129,6 +138,7 @@ def run(F, rep, tier):
     rep.rule("C19-R2", "non-assignment solve bodies are idempotent: write only their output, never accumulate into it or append without clearing")
     rep.rule("C19-R3", "the plan is append-only")
     rep.rule("C19-R4", "ordered value containers; no clock/RNG reachable from kernels")
+    rep.rule("C19-R7", "output freshness: a non-assignment solve body never lets what the previous evaluation left in its own output cell reach what it writes there (feedback reads)")
     check_step(F.syn("mech_interpreter.lib"), rep)
     run_rest(F, rep, tier)
 
@@ -164,6 +174,51 @@ def check_step(items, rep):
         rep.check(n_whole >= 1, "C19-R1", "step:whole-plan-branch", "step(0, n) no longer runs the whole plan")
 
 
+def is_assignment_family(fs):
+    """the assignment / op-assignment function structs are the ones that write through a `sink` cell (the variable being assigned): a role of the function
+    protocol, read off the struct's fields - not off its name (`SetInsertFxn` is the pure function set/insert, `VariableDefine*` does nothing in solve)"""
+    return "sink" in dict(fs.fields)
+
+
+def output_fields(fs):
+    """the fields of the struct that hold its output cell: the `self.<field>`s the protocol method `fn out()` returns"""
+    if not fs.out_expr:
+        return []
+    return sorted({f[2] for f in find(fs.out_expr, "field") if is_node(f[1]) and f[1][0] == "path" and f[1][1] == "self"})
+
+
+def check_output_freshness(F, S, rep):
+    """C19-R7 over every non-assignment solve body"""
+    inl = {}
+    n = n_reads = n_harmless = 0
+    idioms = defaultdict(int)
+    for (crate, name), fs in sorted(S.items()):
+        if fs.solve is None or is_assignment_family(fs):
+            continue
+        outs = output_fields(fs)
+        if crate not in inl:
+            inl[crate] = Inliner(F.syn(crate))
+        k, R, why = OF.analyse_solve(fs.solve, fs.fields, outs, inl[crate], fs.mod, name)
+        if k is None:
+            rep.note("unrecognised_kernels_r7", {"struct": name, "why": why})
+            continue
+        n += 1
+        n_reads += R.reads
+        n_harmless += len(R.idioms)
+        for (idiom, place) in R.idioms:
+            idioms[idiom] += 1
+            rep.note("harmless_feedback_reads", {"struct": name, "idiom": idiom, "place": place})
+        for u in R.undecided:
+            rep.note("undecided", {"rule": "C19-R7", "struct": name, "why": u})
+        p0 = R.problems[0] if R.problems else None
+        rep.check(p0 is None, "C19-R7", name if p0 is None else "%s:%s:%s" % (name, p0.kind, p0.place),
+                  "%s::solve %s - re-running the plan gives a result that depends on how often it ran" % (name, "; ".join(p.msg for p in R.problems[:3])), "%s (%s)" % (name, crate),
+                  sample={"struct": name, "reads_of_own_output": R.reads, "invariant": R.invariant, "fresh": R.fresh, "feedback": R.feedback})
+    rep.floor("C19-R7", "non-assignment solve bodies analysed for output freshness", n, 800)
+    rep.floor("C19-R7", "reads of the own output cell recognised (extents, fields, elements)", n_reads, 150)
+    rep.analysed["output_freshness"] = {"bodies": n, "reads_of_own_output": n_reads, "harmless_feedback_idioms": dict(idioms)}
+
+
 def run_rest(F, rep, tier):
     # ---- R2
     S = X.load_fxn_structs(F, CRATES)
@@ -173,7 +228,7 @@ def run_rest(F, rep, tier):
         if fs.solve is None:
             continue
         fields = dict(fs.fields)
-        if "sink" in fields or re.search(r"Assign|Append|Insert|Define|Set\dD|SetValue|Push|Update", name):
+        if is_assignment_family(fs):
             rep.note("assignment_family", name)
             continue
         try:
@@ -223,6 +278,7 @@ def run_rest(F, rep, tier):
                   sample={"struct": name, "normal_form": [repr(e) for e in k.effects][:3]})
     rep.floor("C19-R2", "non-assignment solve bodies classified", n, 700)
     rep.analysed = {"solve_bodies_classified": n, "unrecognised": unrec}
+    check_output_freshness(F, S, rep)
 
     # ---- R3 plan append-only: methods called on a plan borrow anywhere in interpreter/core.  "The plan" is a role: the field `plan`, the result of the
     # accessor `plan()`, a parameter of type Plan, or a local initialised from one of these (`let b = p.plan(); let mut w = b.borrow_mut(); w.push(..)`)
